@@ -31,6 +31,8 @@ type Facts struct {
 	StructValidateTestArg string
 	StructValidatePostArg string
 	StructProcessPostWrap string
+	CloneCopiesTests      bool
+	CloneCopiesPosts      bool
 	KeyBufGuarded         bool
 	NilProvGuard          bool
 	PtrRefreshesSubData   bool
@@ -487,6 +489,39 @@ func extractFacts(repo string) (*Facts, error) {
 		sel, ok := call.Fun.(*ast.SelectorExpr)
 		return ok && sel.Sel.Name == "AddIssue"
 	}), ",")
+	// F-clone: does cloneShallow give the new object its own tests / postTransforms backing arrays?
+	hf, err := parseFile(fset, filepath.Join(repo, "struct_helpers.go"))
+	if err != nil {
+		return nil, err
+	}
+	if cl := findFunc(hf, "StructSchema", "cloneShallow"); cl != nil {
+		ast.Inspect(cl.Body, func(n ast.Node) bool {
+			kv, ok := n.(*ast.KeyValueExpr)
+			if !ok {
+				return true
+			}
+			key, ok := kv.Key.(*ast.Ident)
+			if !ok {
+				return true
+			}
+			// sharing shapes: `v.tests`, `v.tests[:]`, `v.tests[a:b]`; anything else (append to nil, slices.Clone,
+			// make+copy helper, a 3-index slice) gives an own array or cannot be appended into
+			shares := false
+			switch e := kv.Value.(type) {
+			case *ast.SelectorExpr:
+				shares = true
+			case *ast.SliceExpr:
+				shares = !e.Slice3
+			}
+			if key.Name == "tests" {
+				fc.CloneCopiesTests = !shares
+			}
+			if key.Name == "postTransforms" {
+				fc.CloneCopiesPosts = !shares
+			}
+			return true
+		})
+	}
 	return fc, nil
 }
 
@@ -552,6 +587,7 @@ func (f *Facts) lean() string {
 	}
 	s.WriteString("]\n\n")
 	fmt.Fprintf(&s, "/-- writes rooted at a schema receiver or package variable inside process/validate/Parse/Validate -/\ndef schemaWrites : List String := %s\n\n", leanStrList(f.Writes))
+	fmt.Fprintf(&s, "/-- cloneShallow (Pick/Omit/Extend) gives the derived schema its own tests and postTransforms arrays -/\ndef cloneCopies : Bool := %s\n\n", b(f.CloneCopiesTests && f.CloneCopiesPosts))
 	fmt.Fprintf(&s, "def structValidateTestArg : String := %q\n", f.StructValidateTestArg)
 	fmt.Fprintf(&s, "def structValidatePostArg : String := %q\n", f.StructValidatePostArg)
 	fmt.Fprintf(&s, "def structProcessPostIssue : String := %q\n", f.StructProcessPostWrap)
